@@ -72,10 +72,10 @@ registers it has after the previous row, produce **exactly one row, equal to the
 every register**, and leave the reader in the state that corresponds to the writer's new
 `prev_row`. `rest` is whatever follows in the program. -/
 theorem generate_row_correct (m : Mode) (en : Endian) (format : Format) (addrSize : Nat) (e : Enc)
-    (base : Nat) (prev row : WRow) (rest : List Instr)
+    (base : Nat) (prev row : WRow)
     (henc : EncOk e) (hasz : addrSize = 1 ∨ addrSize = 2 ∨ addrSize = 4 ∨ addrSize = 8)
     (hprev : prev.cleared = prev) (hstep : StepOk e addrSize base prev row) :
-    ∃ is, generateRow m e prev row = .ok (is, row.cleared) ∧
+    ∃ is, generateRow m e prev row = .ok (is, row.cleared) ∧ ∀ rest : List Instr,
       traceInstrs (readerParams en format addrSize e) (rowOf e.version base prev)
           (is.map (WInstr.toInstr e.version) ++ rest) =
         Ev.row (rowOf e.version base row) ::
@@ -122,7 +122,7 @@ theorem generate_row_correct (m : Mode) (en : Endian) (format : Format) (addrSiz
   obtain ⟨ais, hadv, htr⟩ := advanceInstrs_trace m e h hagree e.version rb
     ((row.line : Int) - prev.line)
     ((row.addressOffset - prev.addressOffset) / e.minInstLen * e.maxOps + row.opIndex - prev.opIndex)
-    rest hb1 hb2 hrng hlr (by omega) (by show prev.line < 2 ^ 64; omega)
+    hb1 hb2 hrng hlr (by omega) (by show prev.line < 2 ^ 64; omega)
     (by show 0 ≤ (prev.line : Int) + _ ∧ (prev.line : Int) + _ < 2 ^ 64; omega) rfl hsz hmax hop1
     (by show prev.opIndex + _ < 2 ^ 64; omega)
     (by
@@ -132,7 +132,8 @@ theorem generate_row_correct (m : Mode) (en : Endian) (format : Format) (addrSiz
   refine ⟨resetFieldInstrs row ++ stickyFieldInstrs prev row ++ ais, ?_, ?_⟩
   · unfold generateRow
     simp only [hla, hoa, hadv, Out.bind_ok, Out.pure_eq]
-  · simp only [List.map_append, List.append_assoc]
+  · intro rest
+    simp only [List.map_append, List.append_assoc]
     rw [trace_resetFields h e.version (rowOf e.version base prev) row _
       ⟨hcl.1, hcl.2.1, hcl.2.2.1, hcl.2.2.2⟩]
     rw [trace_stickyFields h e.version ra prev row _ rfl rfl rfl rfl]
@@ -411,4 +412,344 @@ example : ∀ v ∈ [(0 : Int), 1, -1, 63, 64, -64, -65, 300, -300, 8191, 8192, 
 example : writeInstr .little 4 8 (.setAddress (some 0x1000)) = .ok [0, 9, 2, 0, 0x10, 0, 0, 0, 0, 0, 0] := by
   decide
 example : writeInstr .little 4 8 (.setDiscriminator 300) = .ok [0, 3, 4, 0xac, 0x02] := by decide
+
+/-! ## sequences: `set_address`, `end_sequence`, state reset -/
+
+/-- `LineRow::initial_state` is the reader's `LineRow::new`, for every version 2–5 -/
+theorem rowOf_initial (en : Endian) (format : Format) (addrSize : Nat) (e : Enc) (hv : e.version ≤ 5) :
+    rowOf e.version 0 (WRow.initial e) = Row.new (readerParams en format addrSize e) := by
+  simp [rowOf, WRow.initial, Row.new, readerParams, file_initial_raw e.version hv]
+
+/-- **`set_address`** (at the start of a sequence or in the middle of one). For every program
+state and every constant address `a` that is not below the address of the previous row (the
+caller's documented obligation) and below the tombstone values of the address size: the writer
+pushes one `DW_LNE_set_address(a)` and restarts the previous row's `address_offset`/`op_index` at 0;
+the reader, executing it, is in the state that corresponds to that new previous row **with base
+`a`** — so offsets of the following rows are relative to `a`. -/
+theorem set_address_correct (en : Endian) (format : Format) (addrSize : Nat) (p : Prog) (base a : Nat)
+    (rest : List Instr) (hlo : base + p.prevRow.addressOffset ≤ a) (hhi : a < minTombstone addrSize) :
+    let p' := p.setAddress (some a)
+    p'.instrs = p.instrs ++ [.setAddress (some a)] ∧
+    p'.prevRow = { p.prevRow with addressOffset := 0, opIndex := 0 } ∧ p'.row = p.row ∧
+    p'.inSequence = true ∧
+    traceInstrs (readerParams en format addrSize p.enc) (rowOf p.enc.version base p.prevRow)
+        ((WInstr.setAddress (some a)).toInstr p.enc.version :: rest) =
+      traceInstrs (readerParams en format addrSize p.enc) (rowOf p.enc.version a p'.prevRow) rest := by
+  refine ⟨rfl, rfl, rfl, rfl, ?_⟩
+  rw [traceInstrs]
+  have h1 : ¬ a < base + p.prevRow.addressOffset := by omega
+  have h2 : ¬ a ≥ minTombstone addrSize := by omega
+  simp [WInstr.toInstr, execute, rowOf, readerParams, Prog.setAddress, h1, h2]
+
+/-- the operation pointer of `end_sequence(address_offset)` is a legal successor of the previous
+row -/
+def EndOk (e : Enc) (addrSize base : Nat) (prev row : WRow) (off : Nat) : Prop :=
+  prev.addressOffset % e.minInstLen = 0 ∧ off % e.minInstLen = 0 ∧
+  prev.opIndex < e.maxOps ∧ row.opIndex < e.maxOps ∧
+  prev.addressOffset ≤ off ∧ (prev.addressOffset = off → prev.opIndex ≤ row.opIndex) ∧
+  (off - prev.addressOffset) / e.minInstLen * e.maxOps + row.opIndex < 2 ^ 64 ∧
+  base + off ≤ onesSized addrSize
+
+/-- **`end_sequence`.** For every encoding with min_inst_len, max_ops ≥ 1, every previous row
+and current row (only its `op_index` is used) and every end offset that is a legal successor
+(`EndOk`): the writer pushes `advance_pc` (if the operation pointer moves) and
+`DW_LNE_end_sequence`; the reader produces exactly one row, with `end_sequence` set, at address
+`base + address_offset` and the current `op_index`, and is then back in its initial state —
+like the writer, whose `prev_row` and `row` are reset to `LineRow::initial_state`. -/
+theorem end_sequence_correct (m : Mode) (en : Endian) (format : Format) (addrSize : Nat) (e : Enc)
+    (base : Nat) (prev row : WRow) (off : Nat)
+    (hmin : 1 ≤ e.minInstLen) (hmax : 1 ≤ e.maxOps)
+    (hasz : addrSize = 1 ∨ addrSize = 2 ∨ addrSize = 4 ∨ addrSize = 8)
+    (hend : EndOk e addrSize base prev row off) :
+    ∃ is, endSequence m e prev row off = .ok is ∧ ∀ rest : List Instr,
+      traceInstrs (readerParams en format addrSize e) (rowOf e.version base prev)
+          (is.map (WInstr.toInstr e.version) ++ rest) =
+        Ev.row { rowOf e.version base prev with address := base + off, opIndex := row.opIndex,
+                                                endSequence := true } ::
+          traceInstrs (readerParams en format addrSize e) (Row.new (readerParams en format addrSize e)) rest := by
+  obtain ⟨hal1, hal2, hop1, hop2, hle, hsame, hfit, haddr⟩ := hend
+  let h := readerParams en format addrSize e
+  let row' : WRow := { row with addressOffset := off }
+  have hge : prev.opIndex ≤ (off - prev.addressOffset) / e.minInstLen * e.maxOps + row.opIndex := by
+    by_cases heq : prev.addressOffset = off
+    · have := hsame heq; omega
+    · have hpos : 0 < off - prev.addressOffset := by omega
+      have hdvd : e.minInstLen ∣ off - prev.addressOffset :=
+        Nat.dvd_sub (Nat.dvd_of_mod_eq_zero hal2) (Nat.dvd_of_mod_eq_zero hal1)
+      have h1 : 1 ≤ (off - prev.addressOffset) / e.minInstLen :=
+        Nat.div_pos (Nat.le_of_dvd hpos hdvd) (by omega)
+      have h2 : e.maxOps ≤ (off - prev.addressOffset) / e.minInstLen * e.maxOps :=
+        Nat.le_mul_of_pos_left _ h1
+      omega
+  have hoa := opAdvance_spec m e prev row' hmin hle hal2 hfit hge
+  obtain ⟨hptr1, hptr2⟩ := pointer_arith e.minInstLen e.maxOps prev.addressOffset off
+    prev.opIndex row.opIndex hmin hmax hal1 hal2 hle hop2 hge
+  have hsz : h.addrSize ≤ 8 := by show addrSize ≤ 8; omega
+  let oa := (off - prev.addressOffset) / e.minInstLen * e.maxOps + row.opIndex - prev.opIndex
+  have hadv : advBy h (rowOf e.version base prev) oa =
+      { rowOf e.version base prev with address := base + off, opIndex := row.opIndex } := by
+    simp only [advBy, rowOf, h, readerParams, oa, hptr1]
+    have : base + prev.addressOffset + e.minInstLen *
+        ((prev.opIndex + ((off - prev.addressOffset) / e.minInstLen * e.maxOps +
+          row.opIndex - prev.opIndex)) / e.maxOps) = base + off := by omega
+    rw [this]
+  have hend_exec : ∀ (rest : List Instr) (r : Row), r.tombstone = false → r.endSequence = false →
+      traceInstrs h r (Instr.endSequence :: rest) =
+        Ev.row { r with endSequence := true } :: traceInstrs h (Row.new h) rest := by
+    intro rest r hnt _
+    rw [traceInstrs]
+    simp [execute, hnt, reset]
+  refine ⟨(if oa ≠ 0 then [WInstr.advancePc oa] else []) ++ [.endSequence], ?_, ?_⟩
+  · unfold endSequence
+    rw [show opAdvance m e prev { row with addressOffset := off } = _ from hoa]
+    rfl
+  · intro rest
+    by_cases hz : oa = 0
+    · simp only [hz, ne_eq, not_true_eq_false, ↓reduceIte, List.nil_append, List.map_cons,
+        List.map_nil, WInstr.toInstr, List.cons_append]
+      rw [hend_exec rest _ rfl rfl]
+      have heq := hadv
+      rw [hz, advBy_zero h _ hop1] at heq
+      have ha : base + prev.addressOffset = base + off := congrArg Row.address heq
+      have ho : prev.opIndex = row.opIndex := congrArg Row.opIndex heq
+      simp only [rowOf, ha, ho]
+      rfl
+    · simp only [ne_eq, hz, not_false_eq_true, ↓reduceIte, List.cons_append, List.nil_append,
+        List.map_cons, List.map_nil, WInstr.toInstr]
+      have hx := exec_advancePc h (rowOf e.version base prev) oa rfl hsz hmax hop1
+        (by show prev.opIndex + _ < 2 ^ 64; omega)
+        (by rw [hadv]; exact haddr)
+      rw [trace_noEmit h _ _ _ _ hx, hadv, hend_exec rest _ rfl rfl]
+
+/-- `Prog.endSequence` resets the writer's rows to the initial state and leaves the sequence -/
+theorem end_sequence_resets (m : Mode) (p p' : Prog) (off : Nat) (h : p.endSequence m off = .ok p') :
+    p'.prevRow = WRow.initial p.enc ∧ p'.row = WRow.initial p.enc ∧ p'.inSequence = false ∧
+    ∃ is, WLine.endSequence m p.enc p.prevRow p.row off = .ok is ∧ p'.instrs = p.instrs ++ is := by
+  unfold Prog.endSequence at h
+  cases hes : WLine.endSequence m p.enc p.prevRow p.row off with
+  | ok is =>
+    simp only [hes, Out.bind_ok, Out.pure_eq, Out.ok.injEq] at h
+    subst h
+    exact ⟨rfl, rfl, rfl, is, rfl, rfl⟩
+  | err x => simp [hes] at h
+  | panic w => simp [hes] at h
+  | diverge => simp [hes] at h
+
+/-- `*program.row() = r; program.generate_row();` for each row of a list -/
+def genRows (m : Mode) : Prog → List WRow → Out Prog
+  | p, [] => .ok p
+  | p, r :: rs => do
+    let p ← ({ p with row := r } : Prog).generateRow m
+    genRows m p rs
+
+/-- every row is a legal successor of the one before it -/
+def ChainOk (e : Enc) (addrSize base : Nat) : WRow → List WRow → Prop
+  | _, [] => True
+  | prev, r :: rs => StepOk e addrSize base prev r ∧ ChainOk e addrSize base r.cleared rs
+
+/-- the writer's `prev_row` after a list of rows -/
+def lastRow : WRow → List WRow → WRow
+  | prev, [] => prev
+  | _, r :: rs => lastRow r.cleared rs
+
+theorem cleared_cleared (r : WRow) : r.cleared.cleared = r.cleared := rfl
+
+theorem genRows_correct (m : Mode) (en : Endian) (format : Format) (addrSize : Nat) (base : Nat)
+    (hasz : addrSize = 1 ∨ addrSize = 2 ∨ addrSize = 4 ∨ addrSize = 8) :
+    ∀ (rows : List WRow) (p : Prog), EncOk p.enc → p.prevRow.cleared = p.prevRow →
+      ChainOk p.enc addrSize base p.prevRow rows →
+      ∃ p' is, genRows m p rows = .ok p' ∧ p'.instrs = p.instrs ++ is ∧ p'.enc = p.enc ∧
+        p'.prevRow = lastRow p.prevRow rows ∧ (rows ≠ [] → p'.row = p'.prevRow) ∧
+        (rows = [] → p'.row = p.row) ∧ p'.prevRow.cleared = p'.prevRow ∧ ∀ rest : List Instr,
+        traceInstrs (readerParams en format addrSize p.enc) (rowOf p.enc.version base p.prevRow)
+            (is.map (WInstr.toInstr p.enc.version) ++ rest) =
+          rows.map (fun r => Ev.row (rowOf p.enc.version base r)) ++
+            traceInstrs (readerParams en format addrSize p.enc)
+              (rowOf p.enc.version base (lastRow p.prevRow rows)) rest := by
+  intro rows
+  induction rows with
+  | nil =>
+    intro p _ hcl _
+    exact ⟨p, [], rfl, by simp, rfl, rfl, fun h => absurd rfl h, fun _ => rfl, hcl,
+      fun rest => by simp [lastRow]⟩
+  | cons r rs ih =>
+    intro p henc hcl hchain
+    obtain ⟨hstep, hrest⟩ := hchain
+    obtain ⟨is1, hg, htr⟩ := generate_row_correct m en format addrSize p.enc base p.prevRow r
+      henc hasz hcl hstep
+    -- the program after this row
+    let p1 : Prog := { p with inSequence := true, instrs := p.instrs ++ is1, prevRow := r.cleared, row := r.cleared }
+    have hp1 : ({ p with row := r } : Prog).generateRow m = .ok p1 := by
+      unfold Prog.generateRow
+      simp only [hg, Out.bind_ok, Out.pure_eq]
+      rfl
+    obtain ⟨p', is2, hg2, hins, henc2, hprev, hrow, _, hcl2, htr2⟩ :=
+      ih p1 henc (cleared_cleared r) hrest
+    refine ⟨p', is1 ++ is2, ?_, ?_, henc2, hprev, fun _ => ?_, fun h => (List.cons_ne_nil _ _ h).elim, hcl2, ?_⟩
+    · rw [genRows]
+      simp only [hp1, Out.bind_ok]
+      exact hg2
+    · rw [hins]; simp [p1]
+    · by_cases hrs : rs = []
+      · subst hrs
+        simp only [genRows, Out.ok.injEq] at hg2
+        subst hg2
+        rfl
+      · exact hrow hrs
+    · intro rest
+      simp only [List.map_append, List.append_assoc, List.map_cons, List.cons_append]
+      rw [htr]
+      congr 1
+      exact htr2 rest
+
+
+/-- `set_address(a); (row() = r; generate_row())*; end_sequence(off)` -/
+def writeSequence (m : Mode) (p : Prog) (a : Nat) (rows : List WRow) (off : Nat) : Out Prog := do
+  let p ← genRows m (p.setAddress (some a)) rows
+  p.endSequence m off
+
+/-- **A whole sequence reads back.** For every encoding accepted by `EncOk`, version ≤ 5, address
+size 1/2/4/8, both build modes; a program between sequences (`prev_row = row = initial state`, as
+`new` and `end_sequence` leave it); every start address below the tombstone values; every list of
+rows each of which is a legal successor of the one before (`ChainOk`, offsets relative to the
+start address) and every legal end offset (`EndOk`):
+`set_address`, the `generate_row` calls and `end_sequence` succeed, append instructions `is`, put
+the writer back into the between-sequences state, and the reader — started in its own initial
+state — executing `is` returns **exactly the requested rows, in order, then one `end_sequence`
+row at `a + off`, and is back in its initial state** for whatever follows (`rest`): the next
+sequence starts from a clean slate on both sides. -/
+theorem sequence_roundtrip (m : Mode) (en : Endian) (format : Format) (addrSize : Nat) (p : Prog)
+    (a : Nat) (rows : List WRow) (off : Nat)
+    (henc : EncOk p.enc) (hv : p.enc.version ≤ 5)
+    (hasz : addrSize = 1 ∨ addrSize = 2 ∨ addrSize = 4 ∨ addrSize = 8)
+    (hprev : p.prevRow = WRow.initial p.enc) (hrow : p.row = WRow.initial p.enc)
+    (ha : a < minTombstone addrSize)
+    (hchain : ChainOk p.enc addrSize a (WRow.initial p.enc) rows)
+    (hend : EndOk p.enc addrSize a (lastRow (WRow.initial p.enc) rows)
+      (lastRow (WRow.initial p.enc) rows) off) :
+    let h := readerParams en format addrSize p.enc
+    let last := lastRow (WRow.initial p.enc) rows
+    ∃ p' is, writeSequence m p a rows off = .ok p' ∧ p'.instrs = p.instrs ++ is ∧
+      p'.prevRow = WRow.initial p.enc ∧ p'.row = WRow.initial p.enc ∧ p'.inSequence = false ∧
+      ∀ rest : List Instr,
+      traceInstrs h (Row.new h) (is.map (WInstr.toInstr p.enc.version) ++ rest) =
+        rows.map (fun r => Ev.row (rowOf p.enc.version a r)) ++
+          Ev.row { rowOf p.enc.version a last with address := a + off, opIndex := last.opIndex,
+                                                   endSequence := true } ::
+            traceInstrs h (Row.new h) rest := by
+  intro h last
+  let p1 := p.setAddress (some a)
+  have hp1prev : p1.prevRow = WRow.initial p.enc := by
+    show ({ p.prevRow with addressOffset := 0, opIndex := 0 } : WRow) = _
+    rw [hprev]; rfl
+  -- rows
+  obtain ⟨p2, is2, hg, hins2, henc2, hprev2, hrow2, hrow2', hcl2, htr2⟩ :=
+    genRows_correct m en format addrSize a hasz rows p1 henc
+      (by rw [hp1prev]; rfl) (by rw [hp1prev]; exact hchain)
+  have hp2prev : p2.prevRow = last := by rw [hprev2, hp1prev]
+  have hp2row : p2.row = last := by
+    by_cases hr : rows = []
+    · rw [hrow2' hr]
+      show p.row = last
+      rw [hrow]
+      show _ = lastRow (WRow.initial p.enc) rows
+      rw [hr]; rfl
+    · rw [hrow2 hr, hp2prev]
+  have hp2enc : p2.enc = p.enc := henc2
+  -- end_sequence
+  obtain ⟨is3, hes, htr3⟩ := end_sequence_correct m en format addrSize p.enc a last last off
+    henc.2.2.2.2.1 henc.2.2.2.2.2 hasz hend
+  let p3 : Prog := { p2 with inSequence := false, instrs := p2.instrs ++ is3,
+                             prevRow := WRow.initial p2.enc, row := WRow.initial p2.enc }
+  have hp3 : p2.endSequence m off = .ok p3 := by
+    have hes' : WLine.endSequence m p2.enc p2.prevRow p2.row off = .ok is3 := by
+      rw [hp2prev, hp2row, hp2enc]; exact hes
+    unfold Prog.endSequence
+    rw [hes']
+    rfl
+  refine ⟨p3, [.setAddress (some a)] ++ is2 ++ is3, ?_, ?_, ?_, ?_, rfl, ?_⟩
+  · show (genRows m p1 rows >>= fun p => p.endSequence m off) = _
+    rw [hg]
+    exact hp3
+  · show p2.instrs ++ is3 = _
+    rw [hins2]
+    show (p.instrs ++ [WInstr.setAddress (some a)]) ++ is2 ++ is3 = _
+    simp
+  · show WRow.initial p2.enc = _; rw [hp2enc]
+  · show WRow.initial p2.enc = _; rw [hp2enc]
+  · intro rest
+    obtain ⟨_, _, _, _, hs5⟩ := set_address_correct en format addrSize p 0 a
+      ((is2 ++ is3).map (WInstr.toInstr p.enc.version) ++ rest)
+      (by rw [hprev]; simp [WRow.initial]) ha
+    have h0 : Row.new h = rowOf p.enc.version 0 p.prevRow := by
+      rw [hprev]; exact (rowOf_initial en format addrSize p.enc hv).symm
+    rw [h0]
+    simp only [List.map_append, List.append_assoc, List.map_cons, List.cons_append,
+      List.nil_append] at hs5 ⊢
+    rw [hs5]
+    have this : traceInstrs (readerParams en format addrSize p.enc) (rowOf p.enc.version a p1.prevRow)
+        (is2.map (WInstr.toInstr p.enc.version) ++ (is3.map (WInstr.toInstr p.enc.version) ++ rest)) =
+        rows.map (fun r => Ev.row (rowOf p.enc.version a r)) ++
+          traceInstrs (readerParams en format addrSize p.enc)
+            (rowOf p.enc.version a (lastRow p1.prevRow rows))
+            (is3.map (WInstr.toInstr p.enc.version) ++ rest) :=
+      htr2 (is3.map (WInstr.toInstr p.enc.version) ++ rest)
+    rw [show (p.setAddress (some a)).prevRow = p1.prevRow from rfl]
+    rw [this]
+    congr 1
+    rw [hp1prev, ← h0]
+    exact htr3 rest
+
+/-! ## non-vacuity: the hypotheses are satisfiable, and every opcode choice occurs -/
+
+instance decChainOk (e : Enc) (addrSize base : Nat) : (prev : WRow) → (rows : List WRow) →
+    Decidable (ChainOk e addrSize base prev rows)
+  | _, [] => isTrue trivial
+  | prev, r :: rs => by
+    unfold ChainOk
+    have := decChainOk e addrSize base r.cleared rs
+    infer_instance
+
+instance (e : Enc) (a b : Nat) (p r : WRow) (off : Nat) : Decidable (EndOk e a b p r off) := by
+  unfold EndOk; infer_instance
+
+/-- VLIW: min_inst_len 4, max_ops 3, version 5 -/
+def encV : Enc :=
+  { version := 5, minInstLen := 4, maxOps := 3, defaultIsStmt := false, lineBase := -3, lineRange := 12 }
+
+def w0 : WRow := WRow.initial enc4
+
+example : EncOk enc4 ∧ EncOk encV := by decide
+example : ¬ EncOk enc255 := by decide
+
+/-- the four shapes of `generate_row`'s output for (−5, 14): special opcode alone; `const_add_pc` +
+special; `advance_pc` + special carrying the line; `advance_line` + `advance_pc` + `copy` -/
+example : generateRow .debug enc4 w0 { w0 with addressOffset := 3, line := 4 } =
+    .ok ([.special 63], { w0 with addressOffset := 3, line := 4 }) := by decide
+example : generateRow .debug enc4 w0 { w0 with addressOffset := 20, line := 2 } =
+    .ok ([.constAddPc, .special 61], { w0 with addressOffset := 20, line := 2 }) := by decide
+example : generateRow .debug enc4 w0 { w0 with addressOffset := 100, line := 2 } =
+    .ok ([.advancePc 100, .special 19], { w0 with addressOffset := 100, line := 2 }) := by decide
+example : generateRow .release enc4 w0 { w0 with addressOffset := 100, line := 200, column := 7,
+                                                  discriminator := 3, isStmt := false } =
+    .ok ([.setDiscriminator 3, .negateStatement, .setColumn 7, .advanceLine 199, .advancePc 100, .copy],
+         { w0 with addressOffset := 100, line := 200, column := 7, isStmt := false }) := by decide
+example : StepOk enc4 8 0x1000 w0 { w0 with addressOffset := 100, line := 200 } := by decide
+example : StepOk encV 4 0x1000 { WRow.initial encV with addressOffset := 8, opIndex := 2 }
+    { WRow.initial encV with addressOffset := 12, opIndex := 0, line := 7 } := by decide
+/-- VLIW: from (8, op 2) to (12, op 0) is an operation advance of 1 -/
+example : generateRow .debug encV { WRow.initial encV with addressOffset := 8, opIndex := 2 }
+    { WRow.initial encV with addressOffset := 12, opIndex := 0, line := 3 } =
+    .ok ([.special 30], { WRow.initial encV with addressOffset := 12, opIndex := 0, line := 3 }) := by decide
+
+/-- a two-row sequence satisfies the hypotheses of `sequence_roundtrip`, and this is what it is -/
+def rowsEx : List WRow :=
+  [{ w0 with line := 5 }, { w0 with addressOffset := 40, line := 3, column := 2, basicBlock := true }]
+
+example : ChainOk enc4 8 0x1000 (WRow.initial enc4) rowsEx := by decide
+example : EndOk enc4 8 0x1000 (lastRow (WRow.initial enc4) rowsEx) (lastRow (WRow.initial enc4) rowsEx) 48 := by
+  decide
+example : (writeSequence .debug prog0 0x1000 rowsEx 48).map (·.instrs) =
+    .ok [.setAddress (some 0x1000), .special 22, .setBasicBlock, .setColumn 2, .advancePc 40, .special 16,
+         .advancePc 8, .endSequence] := by decide
 end Gimli.Props.C13
